@@ -31,6 +31,10 @@ def runs(tier):
     out.append(dict(name='stale3', constants=dict(base, MaxD=3, DimsR={2, 3}, DimsC={1}, RanksS={3}, Scenarios={'single'}, MaxDepth=3,
                                                   OWs={True}, Lean=True,
                                                   OpsAt=[{'OrthoLeft', 'OrthoRight', 'Ortho'}, OWOPS, {'OrthoTrunc'}], KindPairs={('real', 'real')})))
+    # aliasing histories: a product with a scalar (t * s and s * t), then truncating sweeps on the product and on the factor -
+    # a truncation of one of them must see its own cores only (rank-1 bonds are where LAPACK really works in place)
+    out.append(dict(name='alias3', constants=dict(base, MaxD=3, DimsR={2, 3}, DimsC={1}, RanksS={1, 3}, Scenarios={'single'}, MaxDepth=3,
+                                                  OpsAt=[{'SMul'}, {'OrthoTrunc'}, {'OrthoTrunc'}], Lean=True, KindPairs={('real', 'real')})))
     return out
 
 
